@@ -1,5 +1,5 @@
 """Per-property job lists.  Each function takes a vcheck.Run and does the work of that property's check."""
-import os
+import os, json
 from vcheck import *
 
 
@@ -51,9 +51,84 @@ def C07(run):
     table(run, 'C07')
 
 
+def record_validate(run, name, family, module, cfg, n, maxlen, xss='64m', timeout=1200, parts=4):
+    """impl -> spec: record real behaviour on seeded random inputs, let TLC check the trace against the specification."""
+    import subprocess, concurrent.futures
+    binp = build_harness('debug')
+    per = max(1, n // parts)
+
+    def one(k):
+        trace = run.path('%s-%d.ndjson' % (name, k))
+        p = subprocess.run([binp, 'record', family, '--seed', str(run.seed * 1000 + k), '--n', str(per), '--maxlen', str(maxlen),
+                            '--out', trace], stdout=subprocess.PIPE, stderr=subprocess.PIPE, text=True)
+        if p.returncode != 0:
+            raise ToolError('recorder for %s failed: %s' % (family, p.stderr[-500:]))
+        out = run.path('%s-%d.out' % (name, k))
+        res = run_tlc(module, cfg, out, workers=1, timeout=timeout, extra_env={'TRACE': trace}, depth_first=True, xss=xss, heap='2g')
+        return k, trace, out, res
+
+    with concurrent.futures.ThreadPoolExecutor(max_workers=parts) as ex:
+        results = list(ex.map(one, range(parts)))
+    run.exhaustive = False
+    for k, trace, out, res in results:
+        lines = [l for l in open(trace)]
+        accepted = res['ok']
+        run.jobs.append(dict(job='%s-%d' % (name, k), kind='trace-validation', module=module, events=len(lines),
+                             accepted=accepted, states=res['distinct'], wall_s=round(res['wall'], 1), error=res['error']))
+        run.states += res['distinct']
+        run.transitions += res['states']
+        if accepted:
+            run.traces += len(lines)
+            run.evaluations += len(lines)
+            run.distinct_nontrivial += len(set(lines))
+            if lines and len(run.samples) < 12:
+                run.samples.append(dict(job=name, trace_line=json.loads(lines[0])))
+        else:
+            rejected = None
+            for l in open(out, errors='replace'):
+                if l.startswith('<<"REJECTED"'):
+                    rejected = l.strip()[:3000]
+            if rejected is None:
+                raise ToolError('trace validation %s failed without a rejected event: %s (see %s)' % (name, res['error'], out))
+            run.violations.append(dict(family=None, job=name, msg='recorded implementation trace rejected by %s' % module,
+                                       rec=None, rejected=rejected, trace=trace))
+        if accepted:
+            for f in (trace, out):
+                try:
+                    os.remove(f)
+                except OSError:
+                    pass
+
+
+LEX_QUICK = ['core3', 'multi4', 'uni4', 'num4', 'ws4', 'kw4', 'qnl3', 'cnl3']
+LEX_THOROUGH = ['core4', 'multi5', 'uni5', 'num5', 'ws5', 'kw5', 'qnl4', 'cnl4']
+
+
+def C12(run):
+    run.rule = ('every text up to the length bound over each alphabet of MC_Lex.tla is lexed by the model one match_loop arm per '
+                'step with the C12 invariants (slices, ignorable gaps, true start/end positions) evaluated from the text alone; '
+                'each text is replayed into the real lexer and the token streams must be identical; recorded token streams of '
+                'random long texts are validated by TLC against LexTrace.tla; non-trivial = at least one token')
+    run.assumptions += ['non-ASCII characters are represented by one member per class (see Chars.tla)']
+    import json as _j
+    res = run_tlc('MC_Lex.tla', 'MC_Lex_arms.cfg', run.path('arms.out'), coverage=True)
+    run.add_tlc('lex-arms', res)
+    st = run_tlc('MC_Lex.tla', 'MC_Lex_selftest_stale.cfg', run.path('selftest.out'))
+    if st['ok'] or 'WellFormed' not in (st['error'] or ''):
+        raise ToolError('specification self-test failed: the stale-suffix defect is not detected by WellFormed')
+    run.jobs.append(dict(job='selftest-stale-suffix', kind='tlc-selftest', expected='Invariant WellFormed is violated', observed=st['error']))
+    for c in (LEX_QUICK if run.tier == 'quick' else LEX_THOROUGH):
+        tlc_replay(run, 'lex-' + c, 'MC_Lex.tla', 'MC_Lex_%s.cfg' % c, 'lex')
+    if run.tier == 'quick':
+        record_validate(run, 'lextrace', 'lex', 'LexTrace.tla', 'LexTrace.cfg', n=160, maxlen=60)
+    else:
+        record_validate(run, 'lextrace', 'lex', 'LexTrace.tla', 'LexTrace.cfg', n=2000, maxlen=150, parts=12, timeout=3000)
+
+
 PROPS = {
     'C03': (C03, 'model_checking'),
     'C06': (C06, 'model_checking'),
     'C07': (C07, 'model_checking'),
+    'C12': (C12, 'model_checking'),
     'C14': (C14, 'model_checking'),
 }
